@@ -222,6 +222,8 @@ func (p *exBuild) expr() string {
 		return p.leafVar(p.next())
 	case "U":
 		return "undeclared_zz"
+	case "Up":
+		return "(undeclared_zz)"
 	case "g":
 		tag := p.next()
 		x := p.leafVar(p.next())
